@@ -424,21 +424,21 @@ func sameOutcome(e expectation, o observation) bool {
 	}
 }
 
-func reqSig(q reqSpec, dims int) string {
-	s := reqMethods[q.Method] + "_" + reqPaths[q.Path]
+func dimSig(q reqSpec, dims int) string {
+	var parts []string
 	if dims&dimHost != 0 {
-		s += "_host=" + orDash(reqHosts[q.Host])
+		parts = append(parts, "host="+orDash(reqHosts[q.Host]))
 	}
 	if dims&dimHdr != 0 {
-		s += "_hdr=" + strings.ReplaceAll(reqHdrNames[q.Hdr], " ", "")
+		parts = append(parts, "hdr="+strings.ReplaceAll(reqHdrNames[q.Hdr], " ", ""))
 	}
 	if dims&dimQuery != 0 {
-		s += "_query=" + orDash(reqQueries[q.Query])
+		parts = append(parts, "query="+orDash(reqQueries[q.Query]))
 	}
 	if dims&dimRemote != 0 {
-		s += "_remote=" + reqRemotes[q.Remote]
+		parts = append(parts, "remote="+reqRemotes[q.Remote])
 	}
-	return s
+	return strings.Join(parts, ",")
 }
 
 func orDash(s string) string {
@@ -490,31 +490,46 @@ func classify(routes []routeSpec, q reqSpec, m *memo, e expectation, o observati
 	if o.Status == http.StatusAccepted && e.Status == http.StatusAccepted && realIdx == e.Winner {
 		return fmt.Sprintf("target:%s:exp=%s:got=%s", chanNames[routes[realIdx].Chan], e.Target, o.Target)
 	}
-	// first route in order on which the reference and the implementation disagree
-	d, verdict := -1, ""
-	switch {
-	case e.Winner >= 0 && (realIdx < 0 || e.Winner < realIdx):
-		d, verdict = e.Winner, "ref-match"
-	case realIdx >= 0:
-		d, verdict = realIdx, "ref-nomatch"
+	// a later route chosen although an earlier one holds as well (both hold by the reference)
+	if realIdx >= 0 && e.Winner >= 0 && e.Winner < realIdx && routes[realIdx].inbound() &&
+		m.pathHolds(routes[realIdx], q) && m.othersHold(routes[realIdx], q) && m.methodHolds(routes[realIdx], q) {
+		return "order:later-matching-route-chosen"
 	}
-	if d >= 0 {
-		s := routes[d]
-		return fmt.Sprintf("resolve:%s:%s:%s:%s", routePaths[s.Path], matchNames[s.Match], reqSig(q, dimsOfMatch(s.Match)), verdict)
+	// the first single criterion of a single route whose opposite verdict explains the observation
+	for i, s := range routes {
+		for c := 0; c < nCrit; c++ {
+			st, w, allow := m.resolveFlipped(routes, q, false, i, c)
+			fe := expectation{Status: st, Winner: w, Allow: allow}
+			if w >= 0 {
+				fe.Route, fe.Target = routePaths[routes[w].Path], routes[w].target(w)
+			}
+			if !sameOutcome(fe, o) {
+				continue
+			}
+			var refHolds bool
+			var class string
+			switch c {
+			case critPath:
+				refHolds = m.pathHolds(s, q)
+				class = "path(" + routePaths[s.Path] + "~" + reqPaths[q.Path] + ")"
+			case critOthers:
+				refHolds = m.othersHold(s, q)
+				class = matchNames[s.Match] + "(" + dimSig(q, dimsOfMatch(s.Match)) + ")"
+			default:
+				refHolds = m.methodHolds(s, q)
+				ms := "POST-by-default"
+				if len(shapeCriteria[s.Match].methods) > 0 {
+					ms = strings.Join(shapeCriteria[s.Match].methods, "+")
+				}
+				class = "method(" + ms + "~" + reqMethods[q.Method] + ")"
+			}
+			if refHolds {
+				return class + ":impl-fails"
+			}
+			return class + ":impl-holds"
+		}
 	}
-	kinds := map[string]bool{}
-	dims := 0
-	for _, s := range routes {
-		kinds[matchNames[s.Match]] = true
-		dims |= dimsOfMatch(s.Match)
-	}
-	var ks []string
-	for k := range kinds {
-		ks = append(ks, k)
-	}
-	sort.Strings(ks)
-	return fmt.Sprintf("nomatch:exp=%d[%s]:got=%d[%s]:%s:%s", e.Status, strings.Join(e.Allow, "+"), o.Status, strings.Join(o.Allow, "+"),
-		strings.Join(ks, "+"), reqSig(q, dims))
+	return fmt.Sprintf("unexplained:exp=%d[%s]:got=%d[%s]", e.Status, strings.Join(e.Allow, "+"), o.Status, strings.Join(o.Allow, "+"))
 }
 
 type finding struct {
